@@ -1184,3 +1184,82 @@ def bounds_history(g, prog, ncalls=4):
             hist.append({"op": "with", "o": "o0", "inline": [["e", ["b", r.choice(["<", ">", "<=", ">=", "!="]),
                                                                      ["f", list(p)], ["c", r.randint(lo, hi)]]]]})
     return hist
+
+
+# ---------------------------------------------------------------------------
+# dist (C15)
+# ---------------------------------------------------------------------------
+
+def dist_entries(r, lo, hi, nmax=4, weights_from=None):
+    """disjoint values / ranges inside [lo, hi] with weights (some zero)"""
+    n = r.randint(2, nmax)
+    span = hi - lo + 1
+    cuts = sorted(r.sample(range(lo, hi + 1), min(span, 2 * n)))
+    ents = []
+    i = 0
+    while i < len(cuts) and len(ents) < n:
+        if r.random() < 0.5 and i + 1 < len(cuts) and cuts[i + 1] - cuts[i] <= 5:
+            item = ["rng", ["c", cuts[i]], ["c", cuts[i + 1]]]
+            i += 2
+        else:
+            item = ["c", cuts[i]]
+            i += 1
+        if weights_from and r.random() < 0.5:
+            w = ["f", [r.choice(weights_from)]]
+        else:
+            w = ["c", r.choice([0, 1, 1, 2, 3, 5])]
+        ents.append([item, w])
+    if all(e[1] == ["c", 0] for e in ents):
+        ents[0][1] = ["c", 2]
+    return ents
+
+
+def dist_program(rng, pure=False, max_bits=9):
+    r = rng
+    g = G(rng, max_bits)
+    fields = [{"n": "d", "k": "int", "w": r.choice([3, 4, 4]), "s": (not pure) and r.random() < 0.2, "r": True}]
+    wf = []
+    if r.random() < 0.6:
+        for i in range(r.randint(1, 2)):
+            fields.append({"n": "w%d" % i, "k": "int", "w": 3, "s": False, "r": False, "i": r.choice([0, 1, 2, 3, 4])})
+            wf.append("w%d" % i)
+    if not pure:
+        fields.append(g.int_field("x", True, w=r.choice([2, 3]), signed=False))
+        if r.random() < 0.4:
+            fields.append(g.int_field("k", False, w=3, signed=False))
+    prog = {"enums": {}, "classes": {"C0": {"base": None, "fields": fields, "blocks": []}}, "top": "C0"}
+    D = fields[0]
+    lo, hi = (-(1 << (D["w"] - 1)), (1 << (D["w"] - 1)) - 1) if D["s"] else (0, (1 << D["w"]) - 1)
+    ents = dist_entries(r, lo, hi, weights_from=wf)
+    st = [["dist", ["f", ["d"]], ents]]
+    if not pure:
+        scope = scope_of(prog, "C0")
+        c = r.random()
+        if c < 0.35:
+            st.append(["e", ["b", r.choice(["<", ">", "!=", "<=", ">="]), ["f", ["d"]], ["c", r.randint(lo, hi)]]])
+        elif c < 0.55:
+            st.append(["e", ["b", r.choice(["<", "!=", ">"]), ["f", ["d"]], ["f", ["x"]]]] if not D["s"] else
+                      ["e", ["b", "!=", ["f", ["d"]], ["c", r.randint(lo, hi)]]])
+        elif c < 0.70:
+            # dist under a condition
+            cond = ["b", r.choice(["<", ">", "=="]), ["f", ["x"]], ["c", r.randint(0, 3)]]
+            st = [["if", [[cond, [st[0]]]], [["dist", ["f", ["d"]], dist_entries(r, lo, hi, weights_from=wf)]] if r.random() < 0.5 else None]]
+        elif c < 0.80:
+            # a second dist on the same field (both are hard: the intersection of the two supports)
+            st.append(["dist", ["f", ["d"]], dist_entries(r, lo, hi, weights_from=wf)])
+        if r.random() < 0.3:
+            st.append(["dist", ["f", ["x"]], dist_entries(r, 0, (1 << [f for f in fields if f["n"] == "x"][0]["w"]) - 1, nmax=3)])
+    prog["classes"]["C0"]["blocks"].append({"n": "c0", "st": st})
+    return prog, g
+
+
+def dist_history(g, prog, ncalls=4):
+    r = g.rng
+    hist = []
+    fields = prog["classes"]["C0"]["fields"]
+    for ci in range(ncalls):
+        for fd in fields:
+            if fd["k"] == "int" and not fd["r"] and r.random() < 0.5:
+                hist.append({"op": "set", "o": "o0", "path": [fd["n"]], "v": r.choice([0, 1, 2, 3, 5]) if fd["n"].startswith("w") else g.rand_val(fd["w"], fd["s"])})
+        hist.append({"op": "randomize", "o": "o0"})
+    return hist
